@@ -1,4 +1,5 @@
 import copy
+import re
 from dataclasses import dataclass
 from decimal import Decimal
 from typing import Any, Optional, Tuple, Union
@@ -93,9 +94,26 @@ def _format_dataset_eval(dataset: Dataset) -> str:
     return f"{{ {', '.join([__format_component(x) for x in dataset.components.values()])} \n\t\t}}"
 
 
+# Names the lexer reads as an IDENTIFIER without quotes (Vtl.g4 IDENTIFIER, first two alternatives).
+_PLAIN_IDENTIFIER = re.compile(
+    r"([0-9][A-Za-z0-9_.]*)?[A-Za-z][A-Za-z0-9_.]*"
+    r"|[A-Za-z_][A-Za-z0-9_.]*:[A-Za-z_][A-Za-z0-9_.]*"
+    r"(\(([0-9]+(\.[0-9]+)*(\.[_+*~])?|[_+*~])\))?(:(\.|[A-Za-z0-9_]+)+)?"
+)
+# true / false are keywords of the lexer (BOOLEAN_CONSTANT) but not literal names of the grammar.
+_BOOLEAN_KEYWORDS = ("true", "false")
+
+
 def _format_reserved_word(value: str):
     if value in RESERVED_WORDS:
         return RESERVED_WORDS[value]
+    if isinstance(value, str) and len(value) > 1 and value[0] == value[-1] == "'":
+        return value  # still carries the quotes it was written with (e.g. a join alias)
+    if isinstance(value, str) and (
+        value in _BOOLEAN_KEYWORDS or _PLAIN_IDENTIFIER.fullmatch(value) is None
+    ):
+        # A name that had to be quoted in the script (e.g. 'my name', 'true') needs its quotes back.
+        return f"'{value}'"
     return value
 
 
@@ -189,7 +207,8 @@ class ASTString(ASTTemplate):
     def visit_DefIdentifier(self, node: AST.DefIdentifier) -> str:
         if node.was_quoted:
             return f"'{node.value}'"
-        return _format_reserved_word(node.value)
+        # written bare in the script: a code item may be a number (1100), which needs no quotes
+        return RESERVED_WORDS.get(node.value, node.value)
 
     def visit_DPRule(self, node: AST.DPRule) -> str:
         if self.pretty:
